@@ -273,4 +273,60 @@ def toFBlock (b : Block Row) : FBlock :=
 def Sheet.ofRows (name : Option Str) (use : Bool) (rows : List Row) : Sheet :=
   ⟨name, use, (segment rows).map toFBlock⟩
 
+/-! ### make_location_trees (_tree.py) -/
+
+/-- `load_identifier` of a tree node's location: a file / folder (`pos = none`) or a block of a file,
+    `f"{file.load_identifier}#'{sheet_name or 'Sheet1'}'!A{row}"` -/
+structure Key where
+  loc : Loc
+  pos : Option (Str × Nat)
+  deriving DecidableEq, Repr
+
+/-- `self.sheet_name or 'Sheet1'` -/
+def sheetKey : Option Str → Str
+  | none => "Sheet1".toList
+  | some [] => "Sheet1".toList
+  | some (c :: s) => c :: s
+
+def Anchor.key (a : Anchor) : Key := ⟨a.loc, a.pos.map (fun p => (sheetKey p.1, p.2))⟩
+
+inductive Child
+  | leaf (i : Nat)      -- the leaf node of table number `i`
+  | node (k : Key)
+  deriving DecidableEq, Repr
+
+/-- a `LocationTreeNode` that is not a leaf; `parent` is set by the one `add_child` call that adds it -/
+structure TNode where
+  key : Key
+  parent : Option Key
+  children : List Child
+  deriving DecidableEq, Repr
+
+/-- `buf`: insertion-ordered dict load identifier → node -/
+abbrev Buf := List TNode
+
+def hasKey (buf : Buf) (k : Key) : Bool := buf.any (fun n => n.key == k)
+
+/-- `buf[k].add_child(child)` -/
+def addChild (buf : Buf) (k : Key) (c : Child) : Buf :=
+  buf.map (fun n => if n.key = k then { n with children := n.children ++ [c] } else n)
+
+/-- `register_node(location, child)`; `k` is the location's identifier and the item its `load_specification`.
+    A new node's parent is the node of `load_specification.source` (registered next), if there is one. -/
+def register (buf : Buf) (k : Key) (c : Child) : Item → Buf
+  | .root _ => if hasKey buf k then addChild buf k c else buf ++ [⟨k, none, [c]⟩]
+  | .inc _ a p =>
+    if hasKey buf k then addChild buf k c
+    else register (buf ++ [⟨k, some a.key, [c]⟩]) a.key (.node k) p
+
+/-- the loop over the tables: leaf `i` is registered under `location.file` -/
+def treesGo (buf : Buf) (i : Nat) : List Out → Buf
+  | [] => buf
+  | t :: ts => treesGo (register buf ⟨t.loc, none⟩ (.leaf i) t.item) (i + 1) ts
+
+def makeLocationTrees (ts : List Out) : Buf := treesGo [] 0 ts
+
+/-- `[v for v in buf.values() if v.parent is None]` -/
+def treeRoots (buf : Buf) : List TNode := buf.filter (fun n => n.parent.isNone)
+
 end Pdt.Load
